@@ -21,6 +21,21 @@ def run(ctx):
     rep.floor('integer powers of ten checked for overflow', npf, 5)
     rep.floor('power-of-ten helpers', nph, 3)
     nn = normalform.check(rep, F)
+    # "extending the scale or precision multiplies by the exact power of ten": scale bookkeeping of with_prec (shared with C07)
+    from rules import scale as _scale
+    wpf = F.fns.get('BigDecimal::with_prec')
+    if wpf is None:
+        rep.violation('R-SCALE', 'BigDecimal::with_prec:missing', 'anchor function not found (fail closed)')
+    else:
+        rep.add_functions([wpf.name])
+        v, msgs, paths = _scale.analyse(wpf, 'dims', scale_params=(2,))
+        key = wpf.key + ':scale-bookkeeping'
+        if v == 'ok':
+            rep.ok('R-SCALE', key, 'all %d paths: padding to a higher precision multiplies the integer by 10^diff and raises the scale by the same diff' % paths, wpf.where())
+        elif v == 'violation':
+            rep.violation('R-SCALE', key, msgs[0][:400], wpf.where())
+        else:
+            rep.undecided('R-SCALE', key, (msgs or ['not decided'])[0][:200], wpf.where())
     from rules import countdigits
     ncd = countdigits.check(rep, F)
     rep.floor('digit-count obligations', ncd, 2)
